@@ -99,6 +99,20 @@ def gen(seed, tier):
         segs.append(seg(0, [g.f_long(r.choice([20, 21]), icao, None, bds20(name))]))
         segs.append(seg(0, [g.f_df17(icao, me_ident(r.randint(1, 4), r.randint(0, 7), name))]))
         add(o, segs)
+    # in ONE reader run: identification squitters of different aircraft whose character fields differ in a single bit (each of
+    # the 48), categories one apart: every frame is decoded from its own bits, nothing is remembered from the previous one
+    for i in range(16 * rep):
+        pool = r.sample(ICAOS, 4)
+        base = [r.choice([r.randint(1, 26), r.randint(48, 57)]) for _ in range(8)]
+        lines = []
+        for k, a in enumerate(pool):
+            name = list(base)
+            if k % 2:
+                pos = (i * 3 + k) % 48
+                name[pos // 6] ^= 1 << (pos % 6)
+            lines.append(g.f_df17(a, me_ident(4 if k < 2 else r.randint(1, 4), (i + k) % 8, name)))
+        o = {"U": 1} if i % 2 else {}
+        add(o, [seg(0, lines)])
     # CLI columns while other markers share the row: ACAS threat marker (BDS 3,0), Comm-B data, positions
     for i in range(12 * rep):
         icao = r.choice(ICAOS)
